@@ -1003,7 +1003,7 @@ def check_C04(chk, tier, seed):
     # than linearly in the number of AVPs (a length recomputed per member, a list rebuilt per AVP) shows as a decode that does
     # not come back within the per-case watchdog
     octd = [d for d in eng.dicts["g"].live() if d["ty"] == "oct" and d["vendor"] is None and 1000 <= d["code"] < 1100][0]
-    nmem = 100000 if tier == "quick" else 1000000
+    nmem = 250000 if tier == "quick" else 1000000          # (100 000 left a quadratic decoder at 11 s on an idle machine - under the 15 s per-case limit)
     member = gen.be(octd["code"], 4) + b"\0" + gen.be(9, 3) + b"m\0\0\0"
     hdr = lambda n: bytes([1]) + gen.be(20 + n, 3) + bytes([0x80]) + gen.be(272, 3) + gen.be(4, 4) + gen.be(1, 4) + gen.be(2, 4)
     fam.append(("many-members", "g", hdr(8 + nmem * len(member)) + gen.be(grp["code"], 4) + b"\0" + gen.be(8 + nmem * len(member), 3) + member * nmem, True))
